@@ -23,7 +23,7 @@ def corpus(ctx):
     for i in range(n):
         progs["gen_%d_%d" % (ctx.seed, i)] = pretty(Gen(ctx.seed * 9000011 + i).program())
     for i in range(n // 3):                  # HashMap instructions
-        progs["genmap_%d_%d" % (ctx.seed, i)] = pretty(Gen(ctx.seed * 9000011 + 500000 + i, features={"maps": True}).program())
+        progs["genmap_%d_%d" % (ctx.seed, i)] = pretty(Gen(ctx.seed * 9000011 + 500000 + i, features={"maps": True, "fnvals": i % 2 == 1}).program())
     return progs
 
 
